@@ -320,6 +320,12 @@ for ch in ("A", "W"):
        functions=["uriOnExitOwnHost2" + ch, "uriOnExitOwnHostUserInfo" + ch, "uriOnExitOwnPortUserInfo" + ch],
        inlined=["uriParseIpFourAddress" + ch], stubs=["memory manager (ledger stub)"], timeout_s=900, mem_gb=10)
 
+    ob(id="OnExitSegment.%s.H" % ch, props=["C02", "C14", "C19"], route="H", harness="c03_helpers.c", entry="h_onexit_seg", char=ch,
+       group="uriOnExitSegmentNzNcOrScheme2 / uriOnExitPartHelperTwo: provisional scheme start withdrawn and pushed as the first segment; absolute-path flag; no other mark changes",
+       defines={"VM": 1, "VL": 4, "VT": 4}, level="B", bounds="provisional scheme text of up to 4 characters; the allocation requests may fail",
+       functions=["uriOnExitSegmentNzNcOrScheme2" + ch, "uriOnExitPartHelperTwo" + ch], inlined=["uriPushPathSegment" + ch],
+       stubs=["memory manager (ledger stub)"], timeout_s=600, mem_gb=8)
+
 for ch in ("A",):
     for (tier, k) in ((Q, 14), (T, 18)):
         ob(id="ParseIPv6address2.v4tail.K%d.%s.H" % (k, ch), props=["C01", "C02", "C03", "C19"], route="H", harness="c02_ip6.c", char=ch, tier=tier,
@@ -465,6 +471,22 @@ for ch in ("A", "W"):
            level="P", bounds="none (symbolic lookahead character, input length symbolic up to 10^6)",
            functions=[fn], stubs=["every callee by its logging interface contract; self-calls by the twin carrying the same contract"],
            require_classes={"contract.post": 3}, covers=False, object_bits=12, timeout_s=900, mem_gb=8)
+# C02 mark actions: the dispatch obligation again, with the frozen may-change table and the recorded-boundary clauses
+MARK_POSTS = ["ParseUriTail", "ParseUriTailTwo", "ParseAuthorityTwo", "ParseSegmentNzNcOrScheme2", "ParseUriReference", "ParseIpFuture", "ParseAuthority",
+              "ParseOwnHost", "ParseOwnHostUserInfoNz", "ParseOwnPortUserInfo", "ParseOwnUserInfo", "ParseMustBeSegmentNzNc"]
+for ch in ("A", "W"):
+    allf = ["uri%s%s" % (f, ch) for f in RULES4 + RULES3 + PARSE_HELPERS]
+    for f in DISPATCH_RULES:
+        fn = "uri%s%s" % (f, ch)
+        ob(id="Marks.%s.%s.D" % (f, ch), props=["C02", "C19"], route="D", harness="d_dispatch.c", entry="h_dispatch", char=ch,
+           group="parser rule functions: on success every recorded mark outside the function's frozen may-change set has its entry value; the functions that record a component boundary record exactly `first`, `first + 1` or the position a callee returned (query, fragment, port, scheme end, provisional scheme start, IPvFuture host, host begin after '[', user-info end)",
+           gen_cmd=["python3", "{VERIF}/spec/gen_dispatch.py", "{VDIR}", f, "{WD}"], defines={"P_MARKS": 1},
+           rename_selfcalls=[("UriParse.c", [f])],
+           enforce=[fn], replace=[g for g in allf if g != fn] + ["uri%s__rec%s" % (f, ch)],
+           restrict_fp=(["uriParseIpLit2%s.function_pointer_call.1/pm_malloc_contract" % ch] if f == "ParseIpLit2" else []),
+           level="P", bounds="none (symbolic lookahead character, input length symbolic up to 10^6)",
+           functions=[fn], stubs=["every callee by its interface contract incl. its may-change set; helpers uriOnExit* and uriParseIPv6address2 by contract (their may-change sets are asserted on the real code in OnExitHost.*.H / ParseIPv6address2.*.H)"],
+           require_classes={"contract.post": 4}, covers=False, object_bits=12, timeout_s=900, mem_gb=8)
 ob(id="lemma.grammar-equals-rfc", props=["C01", "C02"], route="L", harness="", cmd=["python3", "{VERIF}/spec/grammar_tool.py", "check", "{SCRATCH}/clean"],
    group="[L] L1: the documented LL(1) grammar (production comments of src/UriParse.c) denotes exactly RFC 3986 URI-reference (minimal DFAs compared; 182+1 states), all recursion is tail recursion, the table is LL(1)",
    level="P", bounds="none (finite automata constructions, complete)", functions=[], backend="spec/grammar_tool.py", rc1_is_violation=True, timeout_s=300)
@@ -476,7 +498,7 @@ ob(id="lemma.grammar-equals-rfc", props=["C01", "C02"], route="L", harness="", c
 import re as _re
 QUICK = {
     "C01": [r"^lemma\.grammar", r"^Dispatch\..*\.A\.D$", r"^Parse(Single)?UriExMm\.A", r"^ParseIpFourAddress\.A", r"^ParseIPv6address2\.", r"^OnExitHost\.A"],
-    "C02": [r"^lemma\.grammar", r"^OnExitHost\.A", r"^PushPathSegment\.A", r"^FixEmptyTrailSegment\.A", r"^ParseIpFourAddress\.A", r"^Dispatch\.Parse(Authority|OwnHost2|UriReference|UriTail|PartHelperTwo)\.A"],
+    "C02": [r"^lemma\.grammar", r"^OnExitHost\.A", r"^PushPathSegment\.A", r"^FixEmptyTrailSegment\.A", r"^ParseIpFourAddress\.A", r"^Marks\..*\.A", r"^OnExitSegment\.A"],
     "C03": [r"^Parse[A-Za-z0-9]+\.A\.D$", r"^(FreeUriMembersMm|StopSyntaxMalloc|PushPathSegment)\.A", r"^ParseIpFourAddress\.A", r"^ParseIPv6address2\.K8\.A"],
     "C04": [r"^ToString\.content\..*\.A"],
     "C05": [r"^ToString\.cap\."],
@@ -493,7 +515,7 @@ QUICK = {
     "C16": [r"^EscapeEx\.A\.N", r"^UnescapeInPlaceEx\.A\.N", r"^EscapeEx\.corner", r"Content\.", r"^EscapeRoundTrip\."],
     "C17": [r"^DissectQuery\.", r"^AppendQueryItem\.A", r"^ComposeQuery\.", r"^ComposeQueryMalloc\."],
     "C18": [r"^FilenameToUri", r"^FilenameShortForms\."],
-    "C19": [r"^ComposeQueryMalloc\.W", r"^EqualsUri\.W", r"^CompareRange\.W", r"^ToString\.cap\..*\.W", r"^MakeOwner\.W", r"^RemoveBaseUri\.W", r"^DissectQuery\.W", r"Content\.W", r"^EscapeRoundTrip\.W",
+    "C19": [r"^Marks\.Parse(UriTail|AuthorityTwo|OwnUserInfo)\.W", r"^ComposeQueryMalloc\.W", r"^EqualsUri\.W", r"^CompareRange\.W", r"^ToString\.cap\..*\.W", r"^MakeOwner\.W", r"^RemoveBaseUri\.W", r"^DissectQuery\.W", r"Content\.W", r"^EscapeRoundTrip\.W",
             r"^OnExitHost\.W", r"^NormalizeMaskRequired\..*\.W", r"^Dispatch\.Parse(PctEncoded|UriReference|OwnHost2|IpFuture)\.W", r"^FilenameShortForms\.W"],
     "C20": [r"^static\.", r"^Watch\..*\.A", r"^Watch\.(AddBaseUri|ComposeQuery)\.W", r"^EqualsUri\.A", r"^ToString\.cap\.regname\.A", r"^MakeOwner\.A"],
 }
